@@ -121,11 +121,34 @@ def one_request(rep, sub, remote, ir, spec, rq, via_file, spec_key=None):
         raise Violation(f"C15/lookup-raises-{type(exc).__name__}/" + ("+".join(labels) or "exact"), case, {"key": key},
                         f"{type(exc).__name__}: {exc}")
     check_payload("C15/" + ("+".join(l for l in labels if not l.startswith("payload")) or "exact"), case, cmd, text)
+    # the caller keeps the command it got for the previous request: building another one must not change it
+    held = _HELD.get("prev")
+    if held is not None and held[0] == id(remote):
+        check_payload("C15/earlier-command-changed-by-a-later-build", {"spec": spec, "requests": [held[3], rq], "via_file": via_file},
+                      held[1], held[2])
+    _HELD["prev"] = (id(remote), cmd, text, rq)
+
+
+_HELD = {}
 
 
 def check_capabilities(rep, sub, remote, ir, spec, via_file):
     cap = irset.capabilities(ir)
     case = {"spec": spec, "requests": [], "via_file": via_file}
+    # a brand-new remote object asked for one capability FIRST, before anything else touched it (each in turn)
+    from aioswitcher.api.remotes import SwitcherBreezeRemote
+    firsts = {"on_off_type": cap["toggle"], "separated_swing_command": cap["separate_swing"]}
+    if cap["tmin"] is not None:
+        firsts.update(min_temperature=cap["tmin"], max_temperature=cap["tmax"])
+    for prop, want in firsts.items():
+        fresh = SwitcherBreezeRemote(ir)
+        got = getattr(fresh, prop)
+        if got != want or type(got) is not type(want):
+            raise Violation(f"C15/capabilities/{prop}-read-first-on-a-fresh-remote", case, want, got)
+    fresh = SwitcherBreezeRemote(ir)
+    if sorted(m.display for m in fresh.supported_modes) != sorted(cap["supported"]):
+        raise Violation("C15/capabilities/supported_modes-read-first-on-a-fresh-remote", case, sorted(cap["supported"]),
+                        sorted(m.display for m in fresh.supported_modes))
     rep.tick(sub, key=("cap", spec), nontrivial=True, labels=("capabilities",))
     got_modes = sorted(m.display for m in remote.supported_modes)
     if got_modes != sorted(cap["supported"]) or len(remote.supported_modes) != len(set(remote.supported_modes)):
